@@ -701,6 +701,8 @@ class Verifier(Executor):
         if con.modifies is not None:
             for p, v in self.entry.env.items():
                 if isinstance(v, Arr) and p not in con.modifies:
+                    if p not in (self.fi.params if hasattr(self.fi, "params") else ()) and any(isinstance(w, Arr) and w.obj is v.obj for q, w in self.entry.env.items() if q in con.modifies):
+                        continue  # a ghost name bound (ghost_init "@x") to a ghost array that the contract lets the loops update
                     same = s.heap[v.obj.id] is self.entry.heap[v.obj.id]
                     self.oblige(s, "frame", p, True if same else (s.heap[v.obj.id] == self.entry.heap[v.obj.id]), tags={"C13"}, line=line)
 
